@@ -198,6 +198,49 @@ Definition mailbox (L : bytes -> Prop) (rc : nat) (s : bytes) : Prop :=
 Inductive route : bytes -> Prop :=
 | rt_last d : fqdn d -> route (cAT :: d ++ [cCOLON])
 | rt_more d r : fqdn d -> route r -> route (cAT :: d ++ cCOMMA :: r).
+
+(** parseaddr(s) = rc: what the codes mean (0 = invalid; 1, 2 are the filter-list forms) *)
+Definition parseaddr_post (s : bytes) (rc : nat) : Prop :=
+  match rc with
+  | 0 => True
+  | 1 => fqdn_strict s /\ ~ In cAT s
+  | 2 => exists d, s = cAT :: d /\ fqdn_strict d
+  | 3 => mailbox lweak 3 s
+  | 4 => mailbox lweak 4 s
+  | _ => False
+  end.
+
+(** addrsyntax(line, flags) = rc with *addr = [addr], *more = line + [more]; [s] = the line up to its terminator.
+    rc <> 0 only if  s = route ++ a ++ ">" ++ post  where the route is empty or (RCPT TO only) well-formed and at
+    most 256 octets, [addr] is [a] lower-cased, [more] points behind the ">" when something follows, and
+    rc = 3: [a] is local@fqdn, rc = 4: [a] is local@[literal], rc = 1: [a] is empty (MAIL FROM) or
+    "postmaster" in any case (RCPT TO). *)
+Definition addrsyntax_post (s : bytes) (flags : Z) (rc : Z) (addr : option bytes) (more : option nat) : Prop :=
+  rc = 0%Z \/
+  exists rt a post, s = rt ++ a ++ cGT :: post /\ ~ In cGT a
+    /\ (rt = [] \/ (flags = 1%Z /\ route rt /\ length rt <= 256))
+    /\ addr = Some (map to_lower a)
+    /\ more = match post with [] => None | _ => Some (length rt + length a + 1) end
+    /\ ((rc = 1%Z /\ ((flags = 0%Z /\ a = []) \/ (flags = 1%Z /\ map to_lower a = POSTMASTER)))
+        \/ (rc = 3%Z /\ mailbox lweak 3 a)
+        \/ (rc = 4%Z /\ mailbox lweak 4 a)).
+
+(** addrparse(): [None] = refused with 501, [Some ad] = the address the existence checks go on with;
+    an address literal only in RCPT TO *)
+Definition addrparse_post (s : bytes) (flags : Z) (o : option bytes) : Prop :=
+  match o with
+  | None => True
+  | Some ad =>
+      exists rt a post, s = rt ++ a ++ cGT :: post /\ ~ In cGT a
+        /\ (rt = [] \/ (flags = 1%Z /\ route rt /\ length rt <= 256))
+        /\ ad = map to_lower a
+        /\ ((flags = 0%Z /\ a = []) \/ (flags = 1%Z /\ map to_lower a = POSTMASTER)
+            \/ mailbox lweak 3 a \/ (flags = 1%Z /\ mailbox lweak 4 a))
+  end.
+
+(** what the xtext of an accepted AUTH= parameter decodes to: nothing, "<>", or a mailbox *)
+Definition xtext_value (d : bytes) : Prop :=
+  d = [] \/ d = [60; 62]%N \/ mailbox lweak 3 d \/ mailbox lweak 4 d.
 End WithOracle.
 
 (** bytes before the first occurrence of [c] / behind it *)
